@@ -319,12 +319,24 @@ print(json.dumps([lint_script(m) for m in json.load(sys.stdin)]))
 '''
 
 
+def _lint_raises(m):
+    try:
+        impl.bs.lint_script(m)
+    except Exception:  # pylint: disable=broad-except
+        return True
+    return False
+
+
 def check_hash_seeds(models, seeds=(1, 2, 3, 4)):
     import json
     import os
     import subprocess
     import sys
-    here = [impl.bs.lint_script(m) for m in models]
+    try:
+        here = [impl.bs.lint_script(m) for m in models]
+    except Exception as e:  # pylint: disable=broad-except
+        bad = next((m for m in models if _lint_raises(m)), models[0])
+        raise Violation('lint_script raised %s: %s' % (type(e).__name__, e), {'kind': 'model', 'model': bad, 'globals': {}}, 'lint-raises') from e
     src = os.path.dirname(os.path.dirname(impl.bs.module.__file__))
     for hs in seeds:
         r = subprocess.run([sys.executable, '-c', HASHSEED_CODE], input=json.dumps(models), capture_output=True, text=True,
